@@ -4,14 +4,18 @@ EXTENDS IniCsv
 
 S(str) == str   \* readability only
 \* INI line alphabet:  [s]  [t]  a=1  b=2  "  a=3" (indented)  "a = 4"  "# c"  ";d"  ""  "b="
-LinesQ == { <<91, 115, 93>>, <<91, 116, 93>>, <<97, 61, 49>>, <<98, 61, 50>>, <<32, 32, 97, 61, 51>>, <<97, 32, 61, 32, 52>>,
+LinesM == { <<91, 115, 93>>, <<91, 116, 93>>, <<97, 61, 49>>, <<98, 61, 50>>, <<32, 32, 97, 61, 51>>, <<97, 32, 61, 32, 52>>,
             <<35, 32, 99>>, <<59, 100>>, <<>>, <<98, 61>> }
+\* quick:  [s]  [t]  a=1  "  b=2"  "a = 4"  "# c"  ""  "b="
+LinesQ == { <<91, 115, 93>>, <<91, 116, 93>>, <<97, 61, 49>>, <<32, 32, 98, 61, 50>>, <<97, 32, 61, 32, 52>>, <<35, 32, 99>>, <<>>, <<98, 61>> }
 \* thorough adds: tab-indented entry, value with inner '=' and blanks, comment that looks like an entry, whitespace-only line
-LinesT == LinesQ \cup { <<9, 98, 61, 53>>, <<97, 61, 120, 32, 61, 32, 121>>, <<35, 97, 61, 55>>, <<32>> }
+LinesT == LinesM \cup { <<9, 98, 61, 53>>, <<97, 61, 120, 32, 61, 32, 121>>, <<35, 97, 61, 55>>, <<32>> }
 \* set() names: s/a, s/b, t/a, u/a (section u never pre-exists), and the plain names a and k
-NamesQ == { << <<115>>, <<97>> >>, << <<115>>, <<98>> >>, << <<116>>, <<97>> >>, << <<117>>, <<97>> >>, << Top, <<97>> >> }
-NamesT == NamesQ \cup { << Top, <<107>> >>, << <<117>>, <<98>> >> }
-Values == << <<57>>, <<120, 32, 121>>, <<>>, <<55, 55>> >>
+NamesQ == { << <<115>>, <<97>> >>, << <<115>>, <<98>> >>, << <<117>>, <<97>> >>, << Top, <<97>> >> }
+NamesT == NamesQ \cup { << <<116>>, <<97>> >>, << Top, <<107>> >>, << <<117>>, <<98>> >> }
+\* the i-th set() of a history writes the i-th value: "9" then "" (quick), "x y" then "" (thorough)
+Values == << <<57>>, <<>>, <<55, 55>> >>
+ValuesT == << <<120, 32, 121>>, <<>>, <<55, 55>> >>
 
 Str(s) == [t |-> "s", s |-> s]
 Num(neg, digs, x) == [t |-> "n", neg |-> neg, digs |-> digs, x |-> x]
